@@ -243,7 +243,27 @@ func rulesC18(c *Ctx) {
 		}
 	}
 	nFormat := 0
+	// SetTimeRange and the unexported helpers it hands the instants to
+	var setBlocks []*ssa.BasicBlock
+	setBlocks = append(setBlocks, set.Blocks...)
 	for _, b := range set.Blocks {
+		for _, in := range b.Instrs {
+			if call, ok := in.(*ssa.Call); ok {
+				if cal := call.Call.StaticCallee(); cal != nil && cal.Pkg == set.Pkg && cal != strip && cal.Object() != nil && !cal.Object().Exported() {
+					takesTime := false
+					for _, a := range call.Call.Args {
+						if a.Type().String() == "time.Time" {
+							takesTime = true
+						}
+					}
+					if takesTime {
+						setBlocks = append(setBlocks, cal.Blocks...)
+					}
+				}
+			}
+		}
+	}
+	for _, b := range setBlocks {
 		for _, in := range b.Instrs {
 			call, ok := in.(*ssa.Call)
 			if !ok {
@@ -352,7 +372,11 @@ func rulesC18(c *Ctx) {
 			}
 		}
 	}
-	c.Check(nFormat == 2, "C18.window", "SetTimeRange: two formatted instants", set.Pos(), fmt.Sprintf("%d Format calls", nFormat))
+	if nFormat == 0 {
+		c.Unk("C18.window", "SetTimeRange: two formatted instants", set.Pos(), "no Format call found in SetTimeRange or a helper it passes the instants to")
+	} else {
+		c.Check(nFormat == 2, "C18.window", "SetTimeRange: two formatted instants", set.Pos(), fmt.Sprintf("%d Format calls", nFormat))
+	}
 	// the result is stored into s.Condition through Reduce
 	stored := false
 	for _, b := range set.Blocks {
